@@ -186,7 +186,32 @@ def snapshot_is_a_copy(ctx):
                       "getStats returns by value", "getStats is declared to return " + r2)
 
 
+def counters_have_one_copy(ctx):
+    """'The values read are those of some sequential order': what a `g` request reads is the counter map itself, under its lock - Stats
+    keeps no second, rendered copy of the counters (a cached reply text or JSON value) that every writer would have to invalidate: one
+    writer path that forgets (set() of an unchanged value that nevertheless creates a key) and the socket view omits a counter that
+    getAll() lists.  Declaration rule: besides the socket path, Stats has no string / JSON / second map member."""
+    P = ctx.prog
+    cls = P.classes.get("Oomd::Stats")
+    if not cls:
+        ctx.broken("counters-have-one-copy", "anchor", "-", "class Oomd::Stats not found")
+        return
+    maps = [x for x in cls["fields"] if re.search(r"\b(unordered_map|map)<", x.get("type") or "")]
+    ctx.counters["stats_counter_maps"] = len(maps)
+    ctx.floor("stats_counter_maps", 1, "the counter map member of Stats")
+    for x in cls["fields"]:
+        t = x.get("type") or ""
+        copy = (re.search(r"\bstd::(string|basic_string|ostringstream|stringstream|vector)\b|Json::|\b(unordered_map|map)<", t) is not None
+                and x["name"] not in ("stats_socket_path_",) and x not in maps[:1])
+        if copy:
+            ctx.violation("counters-have-one-copy:Stats::%s" % x["name"], "declared type (second copy of shared state)", "oomd/Stats.h:%d" % x.get("line", 0),
+                          "Stats::%s (%s) is a second holder of counter data next to the counter map: a reply served from it is stale whenever a writer "
+                          "path does not refresh it, so a `g` request can read values no sequential order of the updates produces" % (x["name"], t))
+    ctx.ok("counters-have-one-copy", "declared type (second copy of shared state)", "oomd/Stats.h", "%d data members, one counter map, no rendered copy" % len(cls["fields"]))
+
+
 def run(ctx):
+    counters_have_one_copy(ctx)
     snapshot_is_a_copy(ctx)
     service_owns_what_shutdown_needs(ctx)
     stat_update_is_applied_before_return(ctx, "C19")
